@@ -23,6 +23,7 @@
 //! | `transformer-trait` | `Transformer::transform(&m, &q)` vs `m.transform(&q)` (PCA, SVD)           |
 //! | `clone`             | `m.clone().predict(&q)` vs `m.predict(&q)` (only when the model type has `Clone`; detected at compile time, counted as `entry_clone_not_implemented` otherwise) |
 //! | `fresh-matrix`      | predict on a second matrix object built by another constructor from the same rows vs on the original object — for the query matrix and for the training matrix object itself |
+//! | `single-row`        | each query row predicted alone in a 1 x p matrix vs inside the batch |
 //! | `row-context`       | prediction of the training rows inside the training matrix vs inside the larger query matrix |
 //!
 //! Site keys are `entry.<Estimator>:<path>-differs`. Nothing here has an opinion on WHAT the
@@ -382,6 +383,28 @@ fn check<M>(p: &Paths<M>, config: &str, case: &Case) {
             format!("entry.{}:fresh-matrix-differs", p.est),
             format!("{}: {} on the training matrix object gives {} but on another matrix with the same rows {} ({})", context(), op, show(&on_train), show(&on_train_fresh), first_difference(&on_train_fresh, &on_train)),
         );
+    }
+    // (6) a ONE-ROW query matrix: every query row predicted alone must get the value it gets in the
+    // batch (fast paths for single-row operands must not change results)
+    if !p.transform {
+        if let Out::Ok(all) = &base {
+            if all.len() == case.queries.len() {
+                mc::count("entry_cases_single_row");
+                for (i, row) in case.queries.iter().enumerate() {
+                    let one: DM = crate::dm(std::slice::from_ref(row));
+                    match pred(&ma, &one, p.predict) {
+                        Out::Ok(v) if v.len() == 1 && v[0] == all[i] => {}
+                        other => {
+                            mc::violation(
+                                format!("entry.{}:single-row-differs", p.est),
+                                format!("{}: {} of the single row {:?} gives {} but inside the batch of {} query rows it gets {}", context(), op, row, show(&other), case.queries.len(), show(&Out::Ok(vec![all[i]]))),
+                            );
+                            break;
+                        }
+                    }
+                }
+            }
+        }
     }
     // the training rows are the last rows of the query matrix
     if let (Out::Ok(t), Out::Ok(all)) = (&on_train, &base) {
